@@ -1,4 +1,5 @@
 import MontePyVerif.Spec.File
+import MontePyVerif.Props.C19Gen
 /-!
 # C19 — writing is repeatable: observation is pure and output is a fixed point
 
